@@ -252,6 +252,20 @@ def gen_cmd_lists(rnd, quick):
         tail = [sym_cmd(s, rnd, fixed_off=7) for s in rare[:rnd.choice([1, 5, 40])]]
         tail += [sym_cmd(rnd.choice(textlike), rnd, fixed_off=3) for _ in range(2000)]
         add("long-rebuild%d-then-unused" % nreb, body + tail)
+    # many DISTINCT frequencies at the same time (every node its own group: more groups live than there are codes):
+    # symbol s emitted about s+1 times, in bursts / interleaved, below and across the first rebuild
+    order = list(range(250))
+    rnd.shuffle(order)
+    add("long-distinct-freq-bursts", [c for i, s in enumerate(order) for c in [sym_cmd(s, rnd, fixed_off=5)] * (i + 1)])
+    inter = []
+    left = {s: i + 1 for i, s in enumerate(rnd.sample(range(314), 314))}
+    while left and len(inter) < 52000:
+        for s in list(left):
+            inter.append(sym_cmd(s, rnd, fixed_off=(s * 3) & 4095))
+            left[s] -= 1
+            if not left[s]:
+                del left[s]
+    add("long-distinct-freq-interleaved", inter)
     add("long-uniform-all-codes", [sym_cmd(rnd.randrange(314), rnd, fixed_off=(i * 5) & 4095) for i in range(70000)])
     add("long-alternate-lits", [("L", 0x41 + (i & 1)) for i in range(L)])
     add("long-alternate-lit-copy", [sym_cmd((0x20, 300)[i & 1], rnd, fixed_off=1) for i in range(L)])
